@@ -62,6 +62,96 @@ type c15World struct {
 	// types for gen_nested (a new outer type around a type every case shares)
 	typNested reflect.Type
 	idx       int
+	// the overlap document (RouteOrder.tla) and its routers, for the route-shape operations
+	ov *c15Overlap
+}
+
+// c15Overlap: a document in which one request is matched by several (path, server) pairs, its two routers and one
+// middleware over the gorillamux router.
+type c15Overlap struct {
+	doc    *openapi3.T
+	mux    routers.Router
+	legacy routers.Router
+	mw     http.Handler
+}
+
+const c15OverlapDoc = `{"openapi":"3.0.3","info":{"title":"o","version":"1"},
+"servers":[{"url":"https://api.example.com/v1"},{"url":"https://{tenant}.example.com/v1","variables":{"tenant":{"default":"acme"}}}],
+"paths":{
+ "/pets/{petId}":{"get":{"parameters":[{"name":"petId","in":"path","required":true,"schema":{"type":"integer"}}],"responses":{"200":{"description":"ok"}}}},
+ "/pets/mine":{"get":{"responses":{"200":{"description":"ok"}}}},
+ "/a/{x}/{y}":{"get":{"parameters":[{"name":"x","in":"path","required":true,"schema":{"type":"integer"}},{"name":"y","in":"path","required":true,"schema":{"type":"integer"}}],"responses":{"200":{"description":"ok"}}}},
+ "/a/{x}/c":{"get":{"parameters":[{"name":"x","in":"path","required":true,"schema":{"type":"integer"}}],"responses":{"200":{"description":"ok"}}}}}}`
+
+func c15NewOverlap() *c15Overlap {
+	d, err := openapi3.NewLoader().LoadFromData([]byte(c15OverlapDoc))
+	if err != nil {
+		panic("harness: c15 overlap doc: " + err.Error())
+	}
+	if err := d.Validate(context.Background()); err != nil {
+		panic("harness: c15 overlap doc: " + err.Error())
+	}
+	o := &c15Overlap{doc: d}
+	if o.mux, err = gorillamux.NewRouter(d); err != nil {
+		panic(err)
+	}
+	if o.legacy, err = legacy.NewRouter(d); err != nil {
+		panic(err)
+	}
+	o.mw = openapi3filter.NewValidator(o.mux).Middleware(http.HandlerFunc(func(rw http.ResponseWriter, r *http.Request) {
+		rw.WriteHeader(200)
+	}))
+	return o
+}
+
+// the requests of the three variants of a route shape (RouteOrder!ShapeRequests)
+func c15ShapeURL(shape string, v int) string {
+	switch shape {
+	case "overlap_sibling":
+		return []string{"https://api.example.com/v1/pets/mine", "https://api.example.com/v1/pets/7", "https://api.example.com/v1/pets/mine"}[v]
+	case "overlap_deep":
+		return []string{"https://api.example.com/v1/a/1/c", "https://api.example.com/v1/a/1/d", "https://api.example.com/v1/a/1/c"}[v]
+	case "overlap_servers":
+		return []string{"https://api.example.com/v1/pets/7", "https://acme.example.com/v1/pets/7", "https://api.example.com/v1/pets/7"}[v]
+	}
+	panic("harness: c15 route shape " + shape)
+}
+
+// c15Route performs one call of a route-shape operation; the result is "<verdict> <path>@<server>" (the legacy
+// router's Route carries no server).
+func c15Route(o *c15Overlap, entry, shape string, v int) string {
+	req := httptest.NewRequest("GET", c15ShapeURL(shape, v), nil)
+	if entry == "middleware_route" {
+		rec := httptest.NewRecorder()
+		o.mw.ServeHTTP(rec, req)
+		if rec.Code == 200 {
+			return "ok -"
+		}
+		return fmt.Sprintf("reject:%d -", rec.Code)
+	}
+	router := o.mux
+	if strings.HasSuffix(entry, "_legacy") {
+		router = o.legacy
+	}
+	route, pp, err := router.FindRoute(req)
+	if err != nil {
+		return "noroute -"
+	}
+	name := route.Path
+	if route.Server != nil {
+		name += "@" + route.Server.URL
+	}
+	if strings.HasPrefix(entry, "route_") {
+		return "route " + name
+	}
+	if err := openapi3filter.ValidateRequest(context.Background(), &openapi3filter.RequestValidationInput{Request: req, PathParams: pp, Route: route}); err != nil {
+		return c15Kind(err) + " " + name
+	}
+	return "ok " + name
+}
+
+func c15IsRouteOp(o c15Op) bool {
+	return strings.HasPrefix(o.F, "overlap_")
 }
 
 // ---------------------------------------------------------------- the product catalogue: schema features
@@ -221,7 +311,10 @@ const c15ServersDoc = `{"openapi":"3.0.3","info":{"title":"s","version":"1"},
                          "get":{"responses":{"200":{"description":"ok"}}},"post":{"responses":{"200":{"description":"ok"}}}},
          "/things":{"get":{"responses":{"200":{"description":"ok"}}}}}}`
 
-func c15NewWorld(idx int, servers bool) *c15World {
+func c15NewWorld(idx int, main, servers, legacyToo bool) *c15World {
+	if !main { // (a case of route-shape operations only: they have their own document)
+		return &c15World{idx: idx}
+	}
 	d, err := openapi3.NewLoader().LoadFromData([]byte(c15Doc(idx)))
 	if err != nil {
 		panic("harness: c15 doc: " + err.Error())
@@ -233,8 +326,10 @@ func c15NewWorld(idx int, servers bool) *c15World {
 	if w.mux, err = gorillamux.NewRouter(d); err != nil {
 		panic(err)
 	}
-	if w.legacy, err = legacy.NewRouter(d); err != nil {
-		panic(err)
+	if legacyToo { // (the legacy router validates the document once more: only the cases that use it pay for it)
+		if w.legacy, err = legacy.NewRouter(d); err != nil {
+			panic(err)
+		}
 	}
 	if servers { // (only the cases that route through server templates pay for the second document)
 		if w.docS, err = openapi3.NewLoader().LoadFromData([]byte(c15ServersDoc)); err != nil {
@@ -465,6 +560,9 @@ type c15Fixed struct {
 
 // c15Call performs one call of op in variant v (0/1) and returns its verdict.
 func c15Call(w *c15World, o c15Op, v int, idx int, g int) string {
+	if c15IsRouteOp(o) {
+		return c15Route(w.ov, o.E, o.F, v)
+	}
 	if o.F != "-" {
 		if o.E == "mt_req" || o.E == "mt_resp" {
 			return c15Media(w, o.E, o.F, v, g)
@@ -756,17 +854,30 @@ func c15Run(c *Case) []any {
 	c.Decode(&raw)
 	line := map[string]any{"case": c.Idx, "c": raw}
 	goroutines, iters := 8, 100
-	// (thorough has ~20 times the cases of quick -- every pair of product operations, every flat triple -- at the same
-	// number of iterations per goroutine: measured 35 min at 200 iterations on a loaded machine, too long)
+	// thorough has ~20 times the cases of quick (every pair of product operations, every flat triple); its strength is in
+	// the operation pairs, so each goroutine iterates half as often (measured on a loaded machine: 35 min at 200
+	// iterations, 24 min at 100)
+	if c.Tier == "thorough" {
+		iters = 50
+	}
 	c15Configure(tc.Init)
 	defer c15Restore(tc.Init)
 	// alone: a world of its own (so that "first use" is still a first use in the concurrent run)
-	servers := false
+	main, servers, legacyToo, overlap := false, false, false, false
 	for _, op := range tc.Ops {
+		if c15IsRouteOp(op) {
+			overlap = true
+			continue
+		}
+		main = true
 		servers = servers || strings.HasSuffix(op.E, "_servers")
+		legacyToo = legacyToo || strings.Contains(op.E, "legacy")
 	}
-	alone := c15NewWorld(c.Idx*2+1, servers)
-	w := c15NewWorld(c.Idx*2, servers)
+	alone := c15NewWorld(c.Idx*2+1, main, servers, legacyToo)
+	w := c15NewWorld(c.Idx*2, main, servers, legacyToo)
+	if overlap {
+		w.ov = c15NewOverlap() // ONE router pair for all concurrent callers of the case
+	}
 	line["before"] = c15Snapshot(alone, w)
 	type run struct {
 		Op    c15Op `json:"op"`
@@ -774,6 +885,8 @@ func c15Run(c *Case) []any {
 		// Verdicts[v] = ok / reject / other for variant v run alone; conc entries are "v<k>=<result>"
 		Verdicts []any `json:"verdicts"`
 		Conc     []any `json:"conc"`
+		// Routes[v] (route-shape operations): "<path>@<server>" the call found when run alone
+		Routes []any `json:"routes"`
 	}
 	runs := make([]*run, len(tc.Ops))
 	norm := func(v string, idx int) string {
@@ -792,9 +905,16 @@ func c15Run(c *Case) []any {
 		return "other"
 	}
 	for i, op := range tc.Ops {
-		r := &run{Op: op}
+		r := &run{Op: op, Routes: []any{}}
 		for v := 0; v < 3; v++ {
+			if c15IsRouteOp(op) {
+				alone.ov = c15NewOverlap() // "run alone": on routers nobody else has used, not even this caller
+			}
 			a := c15Call(alone, op, v, c.Idx*2+1, 0)
+			if c15IsRouteOp(op) {
+				_, name, _ := strings.Cut(a, " ")
+				r.Routes = append(r.Routes, name)
+			}
 			r.Alone = append(r.Alone, fmt.Sprintf("v%d=%s", v, norm(a, c.Idx*2+1)))
 			r.Verdicts = append(r.Verdicts, class(a))
 		}
